@@ -53,10 +53,28 @@ def inline_docs(tier):
     return docs
 
 
+LRD_LINES = ["[foo]:", "/url", "\"title", "'t'", "[foo]: /u", "abc", "", "> [foo]:", "- [a]:", "[b]: /x 'y", "  [c]:", "[d]: <"]
+LRD_BQ_LINES = ["> > a", ">", "> [foo]:", "> abc", "> /url", "> \"t", "", "> - b", "[foo]"]
+
+
+def lrd_docs(tier):
+    """every document of a few lines over two link-reference-definition alphabets (top level; inside block quotes): the
+    requeue / rewind paths of the parser"""
+    import itertools
+    docs = []
+    for lines, nq, nt in ((LRD_LINES, 3, 4), (LRD_BQ_LINES, 4, 5)):
+        for n in range(1, (nq if tier == "quick" else nt) + 1):
+            for combo in itertools.product(lines, repeat=n):
+                docs.append(("", "\n".join(combo) + "\n"))
+                if n <= 2:
+                    docs.append(("", "\n".join(combo)))
+    return docs
+
+
 def other_docs(tier, seed_):
     """fixed pools (generated, systematic) in a VERIF_SEED-chosen subset for quick, complete for thorough; repository documents"""
     n_gen, n_sys = (400, 400) if tier == "quick" else (docgen.POOL, docgen.SYS_POOL)
-    docs = inline_docs(tier) + docgen.documents(n_gen, seed_) + docgen.systematic(seed_, n_sys)
+    docs = inline_docs(tier) + lrd_docs(tier) + docgen.documents(n_gen, seed_) + docgen.systematic(seed_, n_sys)
     paths = corpus.rule_docs() if tier == "thorough" else corpus.sample(corpus.rule_docs(), 150, seed_)
     for p in paths + (corpus.project_docs() if tier == "thorough" else corpus.sample(corpus.project_docs(), 15, seed_)):
         try:
